@@ -177,6 +177,7 @@ type rig struct {
 	prevOutst   int
 	prevSeen    int
 	live        []liveV
+	stats       map[string]int
 	maxMRS      int32
 }
 
@@ -258,7 +259,7 @@ func (t *tapConn) Write(b []byte) (int, error) {
 }
 
 func run(c *gx.Ctl, p *Params) *gx.Outcome {
-	r := &rig{p: p, c: c, submitCh: make(chan *sarama.ProducerMessage, 16), obsAt: -1}
+	r := &rig{p: p, c: c, submitCh: make(chan *sarama.ProducerMessage, 16), obsAt: -1, stats: map[string]int{}}
 	cl := simkafka.New(c)
 	r.cl = cl
 	cl.AddBroker(1)
@@ -410,6 +411,22 @@ func (r *rig) observe() {
 		last = r.c.Choices[n-1].L
 	}
 	cfg := r.cfg()
+	if last == "tick:flush" && !r.prevPending && r.prevOutst > 0 && seen > r.prevSeen {
+		r.stats["flushed-by:timer"]++
+		if r.prevOutst == 1 {
+			r.stats["flushed-by:timer lone-message"]++
+		}
+	}
+	if strings.HasPrefix(last, "submit:") && seen > r.prevSeen && !r.prevPending {
+		if r.prevOutst == 0 {
+			r.stats["flushed-by:submit lone-message (immediate or threshold 1)"]++
+		} else {
+			r.stats["flushed-by:submit threshold-or-overflow"]++
+		}
+	}
+	if last == "close" && !pending && len(outst) > 0 {
+		r.stats["buffered-at-close-without-trigger"]++
+	}
 	if !pending && len(outst) > 0 && r.setupErr == nil {
 		ids := []string{}
 		for _, i := range outst {
